@@ -416,7 +416,7 @@ def td_spec_digests(vhbin, pid, tier, seed):
 
 
 def C13(tier, seed):
-    multi("C13", tier, seed, ["hllv", "theta"], extra=td_spec_digests, mcs=
+    multi("C13", tier, seed, ["hllv", "theta", "bloom"], extra=td_spec_digests, mcs=
           [("MC_Hll", "MC_Hll_A.cfg")], assumptions=
           ["image variants are produced by the harness's own encoders (fam_hllfmt.rs, fam_theta.rs) AND re-encoded by the specification "
            "(EncList/EncSet/EncArr, EncV1..EncV4): both must agree byte for byte before the library's decoding is judged",
@@ -424,7 +424,8 @@ def C13(tier, seed):
            "theta: serial versions 1-4 (empty, single, exact, estimating, ordered/unordered); t-digest: the digests enumerated by TDigest.tla as "
            "double / float / buffered / reference big-endian double and float images (these encoders live in the harness only; every answer must be "
            "bit-identical to the double image's, whose answers are checked against the specification's exact rationals)",
-           "Bloom dirty bit counts and frequent-items empty flags 4/5 are exercised by the C14 corpus only"], rule=
+           "Bloom: every checkpointed filter state as an exact image and as an image whose bit count is the dirty marker 2^64 - 1 (BLoad), "
+           "including saturated filters; frequent-items empty flags 4/5 are exercised by the C14 corpus only"], rule=
           "every source state (list, set, array x Hll4/6/8, with exceptions, out of order; compact theta states from random and crafted sketches) "
           "in every variant; after loading: full state comparison, further updates, union into an empty union, re-serialization")
 
